@@ -91,6 +91,17 @@ CHECKS = {
         "position-dependent fill. Trusted: history->event conversion in tools/props/socklib.py.",
    technique="TLA+ specs (Delivery.tla, Session.tla) + TLC; TLC trace validation of API histories recorded from real sockets",
    design_ref="DESIGN.md 4.3, 5 (C01)"),
+ "C12": dict(
+   text="PubSub.tla gives the reference matching semantics (counted prefixes); TLC exports every history of <= 4 subscribe / "
+        "unsubscribe calls (38 416) plus simulated longer ones; each is replayed on the real SubscriptionTrie with matches() "
+        "compared for every message after every call (two byte mappings incl. 0x00/0xFF); a two-thread probe checks that "
+        "unsubscribing an unknown topic is never observable. Real PUB/SUB sockets run subscribe/unsubscribe phases with "
+        "multipart messages (tcp/ipc/inproc/io_uring) - delivered set vs Matches - and a stalled-subscriber scenario; "
+        "histories are validated by TLC against Delivery.tla in fan-out mode.",
+   note="Socket-level filtering is checked 60 ms after the subscription calls returned; the race probe is statistical. "
+        "Known finding C12-b (PUB blocks on a stalled subscriber).",
+   technique="TLA+ spec (PubSub.tla, Delivery.tla) + TLC exhaustive history export replayed on the real trie; TLC trace validation of socket histories",
+   design_ref="DESIGN.md 4.6, 5 (C12)"),
 }
 
 NA_DEFAULT = "check not built yet (construction in progress; see DESIGN.md section 10)"
